@@ -1,5 +1,7 @@
 #!/bin/bash
 # tools/runall.sh [checks...]: run quick checks in parallel against MASA_REPO (default /repo), print one line each
 cd /verif
+# a scratch tree (MASA_REPO set) must not overwrite the committed evidence
+if [ -n "$MASA_REPO" ] && [ -z "$VCHECK_OUT" ]; then export VCHECK_OUT=/tmp/o; mkdir -p /tmp/o; fi
 checks=${@:-C01 C02 C03 C04 C05 C06 C07 C08 C09 C10 C11 C12 C13 C14 C15 C16 C17 C18 C19 C20}
 echo $checks | tr ' ' '\n' | xargs -P 16 -I{} sh -c './vcheck {} > /tmp/ra_{}.out 2>&1; echo "{} rc=$? $(tail -1 /tmp/ra_{}.out)"' | sort
